@@ -87,10 +87,10 @@ Print Assumptions C25_save_reload_id.
    reload of uncommitted changes, id reuse, sampling across the wrap-around. *)
 Example C25_example :
   let ops := [PAdd 1 10; PAdd 2 20; PAdd 3 30; PAdd 4 40; PAdd 5 50; PCommit; PRemove 1; PAdd 5 0;
-              PSize; PForEach; PReload; PSize; PRemove 2; PRemove 5; PAdd 1 11; PRandom 3%nat; PExist 2] in
+              PSize; PForEach; PReload; PSize; PRemove 2; PRemove 5; PAdd 2 21; PRandom 3%nat; PExist 5] in
   sp_ops_ok ([], []) ops /\
   snd (pt_run (pt_init 2) ops) =
-    [POk; POk; POk; POk; POk; POk; POk; PErrExists; PNat 4; PItems [(5, 50); (2, 20); (3, 30); (4, 40)];
-     POk; PNat 5; POk; POk; POk; PItems [(1, 11); (4, 40)]; PBool false] /\
-  pt_abs (ps_ws (fst (pt_run (pt_init 2) ops))) = [(4, 40); (3, 30); (1, 11)].
+    [POk; POk; POk; POk; POk; POk; POk; PErrExists; PNat 4; PItems [(2, 20); (5, 50); (3, 30); (4, 40)];
+     POk; PNat 5; POk; POk; POk; PItems [(2, 21); (1, 10)]; PBool false] /\
+  pt_abs (ps_ws (fst (pt_run (pt_init 2) ops))) = [(1, 10); (4, 40); (3, 30); (2, 21)].
 Proof. vm_compute. repeat split; try lia; auto. Qed.
